@@ -306,7 +306,7 @@ func (p *Program) pkgByName(name string) *types.Package {
 			}
 			seen[pk.PkgPath] = true
 			if pk.Types != nil {
-				if _, dup := p.byName[pk.Types.Name()]; !dup {
+				if old, dup := p.byName[pk.Types.Name()]; !dup || len(pk.Types.Path()) < len(old.Path()) {
 					p.byName[pk.Types.Name()] = pk.Types
 				}
 			}
